@@ -32,13 +32,15 @@ def run(ctx):
     if thorough:
         models += [('then2', 'two threads chain continuations while the antecedent completes'),
                    ('wall', 'when_all of two inputs racing their completion'),
-                   ('wany', 'when_any of two inputs racing their completion')]
+                   ('wany', 'when_any of two inputs racing their completion'),
+                   ('wallt', 'when_all(f1, f2): the variadic (tuple) overload'),
+                   ('wanyt', 'when_any(f1, f2): the variadic (tuple) overload')]
     for name, label in models:
         fc.model(ctx, name, WHAT, label, fixed=fixed, timeout=2400)
 
     # E4 + E3 --------------------------------------------------------------------------------
     rng = random.Random(ctx.seed * 31 + 5)
-    fixedprogs = [fc.gen.MC[k] for k in ('then', 'then2', 'exc', 'wall', 'wall1', 'wany', 'wany1', 'wall0')]
+    fixedprogs = [fc.gen.MC[k] for k in ('then', 'then2', 'exc', 'wall', 'wall1', 'wany', 'wany1', 'wall0', 'wallt', 'wanyt')]
     nq, npool = (60, 60) if thorough else (6, 6)
     progs_q = [fc.gen.random_program(rng, 'q') for _ in range(nq)]
     progs_p = [fc.gen.random_program(rng, 'pool') for _ in range(npool)]
